@@ -26,7 +26,7 @@ use crate::name::Name;
 /// to bitwise comparison if either is invalid.
 pub fn names_equal(first: &[u8], second: &[u8]) -> bool {
     match test_n_name_fields(first, second, 1) {
-        Some(Some(len)) if len == first.len() => true,
+        Some(Some(len)) if len == first.len() && len == second.len() => true,
         Some(Some(_)) => first == second, // Invalid since there's extra data
         Some(None) => false,
         None => first == second,
